@@ -255,13 +255,13 @@ func verifC18(native bool, scenario int) {
 	zz.Reach("C18/end")
 }
 
-func VerifC18VersionsNative() { verifC18(true, 0) }
-func VerifC18VersionsShadow() { verifC18(false, 0) }
-func VerifC18FaultNative()    { verifC18(true, 1) }
-func VerifC18FaultShadow()    { verifC18(false, 1) }
+func VerifC18VersionsNative()  { verifC18(true, 0) }
+func VerifC18VersionsShadow()  { verifC18(false, 0) }
+func VerifC18FaultNative()     { verifC18(true, 1) }
+func VerifC18FaultShadow()     { verifC18(false, 1) }
 func VerifC18MalformedNative() { verifC18(true, 2) }
-func VerifC18CancelShadow()   { verifC18(false, 3) }
-func VerifC18CancelNative()   { verifC18(true, 3) }
+func VerifC18CancelShadow()    { verifC18(false, 3) }
+func VerifC18CancelNative()    { verifC18(true, 3) }
 
 // VerifC18V1Meaning: a format-version-1 entry with an empty value has the documented meaning
 // of a deletion in every merge decision: merging it gives byte for byte the result of merging
